@@ -35,6 +35,9 @@ def variants():
         for lt in (False, True):
             vs.append({"host": "queued", "family": "spied", "live_spy": ls, "live_trace": lt, "drive": "dispatch"})
             vs.append({"host": "queued", "family": "spied", "live_spy": ls, "live_trace": lt, "drive": "queue"})
+            # the whole batch posted first, then one complete_circuit() call
+            vs.append({"host": "queued", "family": "spied", "live_spy": ls, "live_trace": lt, "drive": "circuit"})
+    vs += [{"host": "queued", "family": "plain", "drive": "circuit"}, {"host": "queued_off", "family": "spied", "drive": "circuit"}]
     return vs
 
 
